@@ -84,12 +84,17 @@ def dropCaps : List Tok → List Tok
   | .cap _ :: rest => dropCaps rest
   | ts => ts
 
-/-- `… _ [@c] ) [@c] . …`: the unnamed wildcard is the last child pattern of the sibling before an anchor. -/
+/-- negated fields `!f` after the last child pattern -/
+def dropNeg : List Tok → List Tok
+  | .bang :: .ident _ :: rest => dropNeg rest
+  | ts => ts
+
+/-- `… _ [@c] [!f] ) [@c] . …`: the unnamed wildcard is the last child pattern of the sibling before an anchor. -/
 def anchorAfterNestedWildcard (q : String) : Bool :=
   let toks := (tokenize (q.length + 1) q.toList #[]).toList
   let rec go : List Tok → Bool
     | .under :: rest =>
-      (match dropCaps rest with
+      (match dropNeg (dropCaps rest) with
        | .rp :: r2 => (match dropCaps r2 with | .dot :: _ => true | _ => false)
        | _ => false) || go rest
     | _ :: rest => go rest
@@ -424,8 +429,10 @@ def runCase (s : St) : String :=
         -- the rejected pattern is the one on the line of the error offset (one pattern per line)
         let line := ((s.query.toList.take s.errOffset).filter (· == '\n')).length
         let modelHere := model.filter fun x => x.1 == line
+        -- the fingerprint describes the REJECTED pattern (one pattern per line), not the whole query
+        let rq := ((s.query.splitOn "\n")[line]?).getD s.query
         if s.errOffset > s.srcLen then s!"{s.id} judge=FAIL offset-outside-source {info}"
-        else if !s.hasError && !modelHere.isEmpty then s!"{s.id} judge=FAIL rejected-but-matches errkind={s.errKind} pattern={line} optional={optionalParts s.query} extras={decide ((s.query.splitOn "(comment").length > 1)} super={superUse s.sups s.query} {info}"
+        else if !s.hasError && !modelHere.isEmpty then s!"{s.id} judge=FAIL rejected-but-matches errkind={s.errKind} pattern={line} optional={optionalParts rq} extras={decide ((rq.splitOn "(comment").length > 1)} super={superUse s.sups rq} {info}"
         else s!"{s.id} judge=ok rejected={s.errKind} {info}"
 
 def step (s : St) (line : String) : IO St := do
